@@ -77,7 +77,7 @@ func GenPinned() error {
 func runC17(c *vlib.Check) {
 	c.Rule = "the whole registry, exhaustively: every 24-bit tag number is probed for a name; every registered tag, every value of every enumeration and every flag of every bit mask is compared with " +
 		"pinned/registry.json in both directions and round-tripped number->name->number and name->number->name through TagString, EnumName/EnumByName, AppendBitmaskString/BitmaskByStr and one-item XML, JSON and text documents; " +
-		"plus unregistered numbers and names per scope. distinct = distinct (scope, name, number) triples"
+		"plus unregistered numbers and names per scope; registration histories: after ttlv.RegisterEnum of one vendor value on each enumeration in turn (and RegisterTag of one tag) every pinned name and number still resolves both ways and the registry is the pinned one plus exactly the extensions. distinct = distinct (scope, name, number) triples"
 	c.Assumptions = []string{"pinned/registry.json was generated from the pinned commit and cross-checked against every element and enumeration name of the 419 OASIS vector files and against the specification's tables"}
 	pin, err := LoadPinnedRegistry()
 	if err != nil {
@@ -330,7 +330,79 @@ func runC17(c *vlib.Check) {
 	c.Sample(map[string]any{"tags": len(pin.Tags), "enumerations": len(pin.Enums), "masks": len(pin.Masks), "first_enumerations": names[:4]})
 	c.Sample(map[string]any{"tag": "ActivationDate", "number": pin.Tags["ActivationDate"], "xml": `<ActivationDate type="Integer" value="7"/>`})
 	c.Extra["tag_numbers_probed"] = 1 << 24
+	c17Extensions(c, pin, v)
 	c.Exhaustive = true
+}
+
+type zzVerifExt uint32
+
+// c17Extensions: registration history. An application may register vendor values / tags after the library's own init
+// (ttlv.RegisterEnum, ttlv.RegisterTag). After each such registration every pinned name and number of the extended
+// enumeration must still resolve in both directions, the new value too, and at the end the whole registry must be the
+// pinned one plus exactly the extensions. Runs last: it changes the process-wide registry.
+func c17Extensions(c *vlib.Check, pin *Registry, v func(sig, format string, a ...any)) {
+	const extNum, extName = uint32(0x8000AB01), "ZzVerifExtension"
+	enames := make([]string, 0, len(pin.Enums))
+	for n := range pin.Enums {
+		enames = append(enames, n)
+	}
+	sort.Strings(enames)
+	for _, ename := range enames {
+		tag := pin.Tags[ename]
+		if pv, _ := vlib.Catch(func() { ttlv.RegisterEnum(tag, map[zzVerifExt]string{zzVerifExt(extNum): extName}) }); pv != nil {
+			v("extension-register-panic", "RegisterEnum(%s, one vendor value) panicked: %v", ename, pv)
+			continue
+		}
+		for vn, num := range pin.Enums[ename] {
+			c.Eval([]byte(fmt.Sprint("ext", ename, vn)), true)
+			if got := ttlv.EnumName(tag, num); got != vn {
+				v("extension-drops-name", "after registering a vendor value on %s, EnumName(0x%08X) = %q, pinned %q", ename, num, got, vn)
+			}
+			if got, err := ttlv.EnumByName(tag, vn); err != nil || got != num {
+				v("extension-drops-number", "after registering a vendor value on %s, EnumByName(%q) = 0x%08X (%v), pinned 0x%08X", ename, vn, got, err, num)
+			}
+		}
+		if got := ttlv.EnumName(tag, extNum); got != extName {
+			v("extension-not-named", "the vendor value registered on %s is written as %q", ename, got)
+		}
+		if got, err := ttlv.EnumByName(tag, extName); err != nil || got != extNum {
+			v("extension-not-read", "the vendor value registered on %s reads back as 0x%08X (%v)", ename, got, err)
+		}
+	}
+	const extTag, extTagName = 0x54AB01, "ZzVerifExtensionTag"
+	if pv, _ := vlib.Catch(func() { ttlv.RegisterTag(extTagName, extTag) }); pv != nil {
+		v("extension-register-panic", "RegisterTag panicked: %v", pv)
+	}
+	live := LiveRegistry()
+	for name, num := range pin.Tags {
+		if live.Tags[name] != num {
+			v("extension-changes-tag", "after the extensions, tag %s is 0x%06X, pinned 0x%06X", name, live.Tags[name], num)
+		}
+	}
+	for name, num := range live.Tags {
+		if _, ok := pin.Tags[name]; !ok && !(name == extTagName && num == extTag) {
+			v("extension-adds-tag", "after the extensions, unexpected tag %s (0x%06X)", name, num)
+		}
+	}
+	for ename, vals := range pin.Enums {
+		lv := live.Enums[ename]
+		for vn, num := range vals {
+			if got, ok := lv[vn]; !ok || got != num {
+				v("extension-changes-enum", "after the extensions, %s.%s is 0x%08X (present %v), pinned 0x%08X", ename, vn, got, ok, num)
+			}
+		}
+		for vn, num := range lv {
+			if _, ok := vals[vn]; !ok && !(vn == extName && num == extNum) {
+				v("extension-adds-enum-value", "after the extensions, unexpected value %s.%s (0x%08X)", ename, vn, num)
+			}
+		}
+	}
+	for mname, flags := range pin.Masks {
+		if fmt.Sprint(live.Masks[mname]) != fmt.Sprint(flags) {
+			v("extension-changes-mask", "after the extensions, mask %s has flags %v, pinned %v", mname, live.Masks[mname], flags)
+		}
+	}
+	c.Extra["extension_histories"] = len(enames) + 1
 }
 
 func repoRoot() string {
